@@ -11,6 +11,13 @@ COMMON_ASSUMPTIONS = [
 ]
 
 
+# rapid's integer generators favour small values: a class selected by `IntRange(0, n-1) == 0` runs in roughly one case in ten
+# whatever n is. The "1 in n" figures in the rule texts are those draw ranges; the measured share of every class is the
+# `labels` count in the evidence file. Classes that must be rare because they are expensive use harness.oneIn (hashed draw).
+FREQ_NOTE = ("; class frequencies quoted as '1 in n' are draw ranges, not measured rates (rapid favours small draws, so such classes "
+             "run in roughly 5-10 % of the cases; expensive genome-sized classes use a hashed draw and are rare) - coverage.labels has the measured counts")
+
+
 def tiers(q_shards, q_checks, t_shards, t_checks, q_timeout=240, t_timeout=1500, floor_q=20, floor_t=100, **kw):
     q = dict(shards=q_shards, checks=q_checks, timeout=q_timeout, floor=floor_q)
     t = dict(shards=t_shards, checks=t_checks, timeout=t_timeout, floor=floor_t)
@@ -23,6 +30,7 @@ PROPS = {}
 
 
 def prop(pid, test, level, text, note, technique, rule, q, t, need_bin=False, assumptions=None, required_labels=None, design_ref=None, exhaustive_note=None):
+    rule = rule + FREQ_NOTE
     PROPS[pid] = dict(test=test, level=level, text=text, note=note, technique=technique, rule=rule, quick=q, thorough=t,
                       need_bin=need_bin, assumptions=(assumptions or []) + COMMON_ASSUMPTIONS,
                       required_labels=required_labels or [], design_ref=design_ref or ("DESIGN.md §4 " + pid),
@@ -89,7 +97,7 @@ prop("C10", "TestC10", "exploration",
      "reference), ranges must be maximal and ascending, counts must match, and the whole text must equal the model's rendering.",
      "Oracle written from the statement; both directions (nothing missing, nothing extra) because every column is classified.",
      "property-based testing (rapid): reconstruction round-trip + reference model",
-     "size classes: 4% with 70..140 records, 2% 4095..8193 columns wide, 1 in 8 medium width 64..400 with sparse reference ambiguity and reference-identical records; 1 in 30 also runs the binary; width 1..40 (thorough 200), 1..6 records; non-trivial = a row with >= 2 ambiguity ranges and >= 1 SNP; distinct = hash of the case",
+     "size classes: 4% with 70..140 records, 2% 4095..8193 columns wide, about 1 % genome-sized (10 001 / 12 000 / 29 903 columns; near-reference, mostly-missing and fully ambiguous records; always also through the binary), 1 in 8 medium width 64..400 with sparse reference ambiguity and reference-identical records; 1 in 30 also runs the binary; width 1..40 (thorough 200), 1..6 records; non-trivial = a row with >= 2 ambiguity ranges and >= 1 SNP; distinct = hash of the case",
      q, t, need_bin=True, required_labels=["range-at-start", "range-at-end", "all-ambiguous", "ranges-one-base-apart", "range-length-1"])
 
 q, t = tiers(8, 8000, 16, 60000, floor_q=4000, floor_t=40000)
@@ -120,7 +128,7 @@ prop("C01", "TestC01", "exploration",
      "text is compared with a column-by-column projection model (base > deletion > nothing, two letters => N, flank rule, window, wrap).",
      "Model written from the statement; records without an aligned base, spans beyond LN, non-contiguous query names and SEQ '*' on primary records are not generated (undefined by the statement).",
      "property-based testing (rapid) against an independent alignment-projection model",
-     "size classes: 1 case in 60 has a 600..9000 nt reference with operators of length 255..8193; 1 in 700 has 300..8300 records; 1 in 20 also runs the binary (cliAgree); non-trivial = some CIGAR has I/D/N/S/H/P, or a query has >= 2 records, or a noise record is interleaved; distinct = hash of the case",
+     "size classes: 1 case in 60 has a 600..9000 nt reference with operators of length 255..8193; 1 in 700 has 300..8300 records; 1 query in 25 is fragmented into 9..70 records; 1 in 2000 has a 66 000..131 100 nt reference with wraps around 65 536; 1 in 20 also runs the binary (cliAgree); non-trivial = some CIGAR has I/D/N/S/H/P, or a query has >= 2 records, or a noise record is interleaved; distinct = hash of the case",
      q, t, need_bin=True, required_labels=["op:I", "op:D", "op:N", "op:S", "op:H", "op:P", "op:=", "op:X", "leading-D", "trailing-D", "adjacent-I/D", "overlapping-records",
                             "disjoint-records", "conflicting-bases", "noise:unmapped", "noise:secondary", "pad", "window", "wrap", "threads>1", "pos=1", "ends-at-L"])
 
@@ -134,7 +142,7 @@ prop("C02", "TestC02", "exploration",
      "with the reference-gap columns deleted must equal gofasta's own `toMultiAlign --pad` row (cross-command relation on real outputs).",
      "Overlapping records that contain the same insertion are not generated (no single answer); record order on stdout with threads>1 is left to C12 (compared as a multiset of per-query blocks).",
      "property-based testing (rapid) against an independent alignment-projection model + metamorphic relation toPairAlign vs toMultiAlign --pad",
-     "size classes as C01 (long operators 1 in 80); 1 case in 20 also runs the binary with -o stdout; non-trivial = a query with >= 1 insertion; distinct = hash of the case; label multi-record+insertion counts the deep class",
+     "size classes as C01 (long operators 1 in 80; fragmented queries of 9..70 records); the --reference file on one line or wrapped; about 30 cases per quick run have a 32 767..66 000 nt reference (single line or wrapped at 60 / 32 768); 1 case in 20 also runs the binary with -o stdout; non-trivial = a query with >= 1 insertion; distinct = hash of the case; label multi-record+insertion counts the deep class",
      q, t, need_bin=True, required_labels=["query-with-insertion", "multi-record+insertion", "several-insertions", "insertion-before-first-base", "insertion-after-last-base",
                             "skip-insertions", "omit-reference", "window", "wrap", "stdout", "threads>1"])
 
@@ -282,7 +290,7 @@ prop("C18", "TestC18", "exploration",
      "terminate (5 s, re-confirmed with 25 s before a hang counts) with a non-zero exit status.",
      "Exit 1 (error) and exit 2 (Go panic) both satisfy the statement as written; the class is recorded as a label. Only conditions gofasta documents or checks are injected; files a command never opens are not corrupted.",
      "property-based testing (rapid) with structured corruption of valid inputs, process-level exit-status oracle",
-     "valid inputs from the C03/C06/C08/C04/C01 generators; non-trivial = corruption at a non-first record or in a secondary input file or in the options; distinct = hash of the case",
+     "valid inputs from the C03/C06/C08/C04/C01 generators; an unequal row is off by one symbol, by many, by half, or reduced to a bare header, at the first, middle or last record; a second --reference record may be a bare header; non-trivial = corruption at a non-first record or in a secondary input file or in the options; distinct = hash of the case",
      q, t, need_bin=True,
      required_labels=["cmd:snps", "cmd:closest", "cmd:updown list", "cmd:updown topranking", "cmd:variants", "cmd:sam toMultiAlign", "cmd:sam toPairAlign", "cmd:sam variants",
                       "corruption:unequal-row", "corruption:non-iupac", "corruption:empty-file", "corruption:missing-file", "corruption:empty-sam",
